@@ -387,6 +387,34 @@ def corridor_games():
                 yield game, vals, d + 2
 
 
+def rewarded_corridor_games(lengths=(130, 360)):
+    """Planted: a corridor of d states that each pay 1 and move on with certainty, numbered in the direction of
+    travel (a sweep in ascending order then moves the goal's information back one state per sweep, and every
+    state further away changes by exactly the same amount in every sweep) or against it; a trap door
+    half-way (probability 1/200 into the sink) makes conditioning rescale one row."""
+    for d in lengths:
+        for ascending in (True, False):
+            for trap in (False, True):
+                n = 4 + d
+                cor = list(range(4, 4 + d)) if ascending else list(range(3 + d, 3, -1))
+                players = [P1, PR, PR, PR] + [None] * d
+                tl = [None] * n
+                tl[0] = [("a", cor[0]), ("b", 3)]
+                tl[1] = [(1, 1)]
+                tl[2] = [(1, 2)]
+                tl[3] = [(0.5, 1), (0.5, 2)]
+                rew = [0, 0, 0, 7] + [1] * d
+                for i, s in enumerate(cor):
+                    players[s] = (PR, P1, P2)[i % 3]
+                    nxt = cor[i + 1] if i + 1 < d else 1
+                    tl[s] = [(1, nxt)] if players[s] == PR else [("go", nxt)]
+                if trap:
+                    s = cor[d // 2 - (d // 2) % 3]          # a probabilistic corridor state
+                    nxt = tl[s][0][1]
+                    tl[s] = [(0.995, nxt), (0.005, 2)]
+                yield dict(rewards=rew, players=players, transition_list=tl, final_states=[1])
+
+
 def cut_corridor_game(d, owner_cycle=(PR, P2), ascending=True):
     """Planted: the root Player 1 state can go straight to the final state (value 1) or into a corridor of
     d probabilistic / Player 2 states that ends in a 1/2 lottery.  The corridor action is not
